@@ -168,6 +168,10 @@ def strategies(profile, max_ops=40):
             # the VM never activates: (optionally cancelled while Creating, withdrawn by the canceller, then) activation timeout
             steps += [['creating', -1, 0, None]] + ([['cancel', 0, 0], ['cancel_creating', cst == 2]] if cst else []) + \
                      [['tick', 1000], ['deactivate', -1, 'activation_timeout']]
+            if not cst:
+                # the job is Ready again: a second VM is requested (attempt 2, Creating) and a reordered unschedule for attempt 1
+                # arrives -- a stale-attempt message for a Creating job
+                steps += [['creating', -1, 0, None], ['unschedule', 0, True], ['unschedule', 1, True]]
             return steps
         if jp:
             steps += [['creating', -1, 0, None], ['activate', -1], ['jp_schedule', -1]]
